@@ -826,6 +826,8 @@ inductive ReplayClass
   | unlockRecordExpired     -- an UNLOCK record is dropped while its hold exists: the hold stays
   | updateWithinTolerance   -- an update record is refused by CheckLockedEqual's tolerance against the replayed (not the original) hold
   | valueOfEndedHoldLost    -- the dropped record of an ended hold carried the key's value
+  | notAdmitted             -- a LOCK record is refused by doLock: the journal's order / the replayed Counts differ from the grant's
+  | levelRefused            -- a re-lock record is refused: replayed depth > Rcount
   | other
   deriving DecidableEq, Repr
 
@@ -835,6 +837,8 @@ def ReplayClass.name : ReplayClass → String
   | .unlockRecordExpired => "unlock-record-expired"
   | .updateWithinTolerance => "update-within-tolerance"
   | .valueOfEndedHoldLost => "value-of-ended-hold-lost"
+  | .notAdmitted => "not-admitted"
+  | .levelRefused => "level-refused"
   | .other => "other"
 
 def JHold.aliveAt (h : JHold) (now : Int) : Bool := match h.deadline with | none => true | some d => decide (d > now)
@@ -844,7 +848,7 @@ def treatClass (now : Int) (st : RState) (idealFinal : JState) (r : JRec) (t : T
   let held := (st.getKey r.db r.key).holds.any (·.id = r.id)
   match t with
   | .skipped | .zeroNoHold =>
-    if ¬ r.isLock then (if held then some .unlockRecordExpired else none)
+    if ¬ r.isLock then (if held then some .unlockRecordExpired else if r.data.isSome then some .valueOfEndedHoldLost else none)
     else if r.flag &&& 0x02 ≠ 0 ∧ held then some .updateRecordExpired
     else if ((idealFinal.get r.db r.key r.id).map (·.aliveAt now)).getD false then some .levelRecordExpired
     else if r.data.isSome then some .valueOfEndedHoldLost
@@ -861,7 +865,8 @@ def treatClass (now : Int) (st : RState) (idealFinal : JState) (r : JRec) (t : T
         | none, none => false
         | _, _ => true
       if r.eflag &&& 0x4440 ≠ h.eflag &&& 0x4440 ∨ off then some .updateWithinTolerance else none
-  | .notAdmitted | .levelRefused => some .other
+  | .notAdmitted => some .notAdmitted
+  | .levelRefused => some .levelRefused
   | _ => none
 
 /-- Per key: the first harmful treatment (a lost value only when nothing else happened to the key). -/
